@@ -1,0 +1,72 @@
+//go:build verif
+
+package protodelim
+
+import (
+	"io"
+	"math"
+
+	"google.golang.org/protobuf/encoding/protowire"
+	"google.golang.org/protobuf/proto"
+)
+
+// Size-delimited framing (C27). The reader and the message are interface values: every call
+// through them returns arbitrary results. What is checked is the framing protocol of the two
+// functions themselves, for all results those calls can produce:
+//
+//   - the size prefix is read byte by byte and reading stops AT the first byte without the
+//     continuation bit (never a byte of the body), after at most ten bytes;
+//   - when the varint parses, it spans exactly the bytes read (n == len(sizeBuf)) and the body
+//     length is its value;
+//   - io.EOF is handed through only from the very first ReadByte (clean boundary); EOF inside the
+//     size gives a truncated varint (ParseError -> io.ErrUnexpectedEOF), EOF inside the body is
+//     turned into io.ErrUnexpectedEOF;
+//   - a body is allocated/peeked only for a size within the configured limit (and within int).
+//
+// @ props C27
+// @ mode int
+// @ frame-local sizeArr
+// @ loop 1 invariant sameArray(sizeBuf, sizeArr[:0]) && loopIndex == len(sizeBuf) && len(sizeBuf) <= 10 && forall(0, len(sizeBuf), func(j int) bool { return sizeBuf[j] >= 0x80 })
+// @ site size, n := protowire.ConsumeVarint(sizeBuf): 1 <= len(sizeBuf) && len(sizeBuf) <= 10 && forall(0, len(sizeBuf)-1, func(j int) bool { return sizeBuf[j] >= 0x80 })
+// @ site return protowire.ParseError(n): n < 0 && imp(sizeBuf[len(sizeBuf)-1] >= 0x80 && len(sizeBuf) < 10, n == protowire.SpecErrTruncated && protowire.ParseError(n) == io.ErrUnexpectedEOF)
+// @ site maxSize := o.MaxSize: n == len(sizeBuf) && size == protowire.SpecVarintVal(sizeBuf, n)
+// @ site#1 return err: err != io.EOF || i == 0
+// @ site#1 break: i != 0 && err == io.EOF
+// @ site#1 return errors.Wrap(&SizeTooLargeError{Size...: o.MaxSize == -1 && size > math.MaxInt
+// @ site#2 return errors.Wrap(&SizeTooLargeError{Size...: !specWithinLimit(o.MaxSize, size)
+// @ site#2 return err: err != io.EOF
+// @ site b, err = br.Peek(int(size)): size <= math.MaxInt && specWithinLimit(o.MaxSize, size)
+// @ site b = make([]byte, size): size <= math.MaxInt && specWithinLimit(o.MaxSize, size)
+// @ site _, err = io.ReadFull(r, b): uint64(len(b)) == size
+// @ site if err := o.Unmarshal(b, m); err != nil {...: err == nil
+func contract_UnmarshalOptions_UnmarshalFrom(o UnmarshalOptions, r Reader, m proto.Message) (err error) {
+	domain(o.MaxSize >= -1)
+	modifiesAll()
+	return
+}
+
+// specWithinLimit: size does not exceed the configured maximum (0 = 4 MiB default, -1 = unlimited).
+func specWithinLimit(maxSize int64, size uint64) bool {
+	if maxSize == -1 {
+		return true
+	}
+	if maxSize == 0 {
+		return size <= 4<<20
+	}
+	return size <= uint64(maxSize)
+}
+
+// The writer side: the size prefix written before the body is the shortest varint of the body's
+// length, and the body is written after it.
+//
+// @ props C27
+// @ mode int
+// @ site sizeWritten, err := w.Write(sizeBytes): len(sizeBytes) == protowire.SpecVlen(uint64(len(msgBytes))) && protowire.SpecVarintAt(sizeBytes, 0, uint64(len(msgBytes)))
+// @ site msgWritten, err := w.Write(msgBytes): err == nil
+func contract_MarshalOptions_MarshalTo(o MarshalOptions, w io.Writer, m proto.Message) (n int, err error) {
+	modifiesAll()
+	return
+}
+
+var _ = math.MaxInt
+var _ = protowire.SpecErrTruncated
